@@ -63,6 +63,7 @@ type Engine struct {
 	loopCache map[*ssa.Function]map[*ssa.BasicBlock]*loopInfo
 	specSt    *State
 	curReplay *replayInfo
+	errSites  map[string]string
 }
 
 type BoundedCheck struct {
